@@ -331,10 +331,14 @@ def C12(rep, prog, tier):
     # equivalent formulas have different clause counts, equal bases have different keys: the family of correction sets must be
     # the inclusion-minimal ones whatever order and cost the solver reports them in, and nothing may stick to a key from one
     # base to the next (the shared default of `ignore`)
-    rep.only = {"MCS.minimal", "MCS.loop", "PART.partition", "PART.context"}
+    rep.only = {"MCS.minimal", "MCS.loop", "PART.partition", "PART.context", "CNF.roles"}
     try:
         _run(rep, enum.minimal, ex)
         _run(rep, enum.shared_defaults, ex)
+        # the enumeration may not stop on the *cost* of a model (the number of clauses an equivalent formula happens to compile
+        # to), and the CNFs a query is answered with are those of this query's formulas, not of one that prints alike
+        _run(rep, enum.loop, ex)
+        _run(rep, cnf.roles, ex)
         _run(rep, part.evaluated, ex, "inference.consistency_sat.consistency_indices", "key")
         _run(rep, part.evaluated, ex, "inference.consistency_sat.consistency", "cond")
         _run(rep, part.evaluated_duplicates, ex, "inference.consistency_sat.consistency_indices", "key")
